@@ -439,8 +439,10 @@ func ext۰reflect۰Value۰CanAddr(fr *frame, args []value) value {
 
 func ext۰reflect۰Value۰CanInterface(fr *frame, args []value) value {
 	// Signature: func (v reflect.Value) bool
-	// Always true for our representation.
-	return true
+	if rV2T(args[0]).t == nil {
+		panic(targetPanic{iface{fr.i.runtimeErrorString, "reflect: call of reflect.Value.CanInterface on zero Value"}})
+	}
+	return !rVRO(args[0])
 }
 
 func ext۰reflect۰Value۰Elem(fr *frame, args []value) value {
